@@ -3,6 +3,8 @@ Model/Cli — `mpilot/cli/mpilot.py`: what the command-line tool reads from the 
 writes to standard error and how it exits, given what loading and running did (`Outcome`).  The loader and the run loop are
 `Model/Program`; `click`'s argument handling is not modelled.  Core Lean only.
 -/
+import MPilot.Generated.CliConsts
+
 namespace MPilot.Cli
 
 /-- text mode with universal newlines: `\r\n` and a lone `\r` are read as `\n` (`prevCr`: the character before was a `\r`, already
@@ -55,10 +57,11 @@ structure Result where
   crash : Option String
   deriving DecidableEq
 
-def header : List Char := "ERROR: There was a problem running the MPilot command file.".toList
-def indent (l : List Char) : List Char := ' ' :: ' ' :: ' ' :: ' ' :: l
-def marker (l : List Char) : List Char := '-' :: '-' :: '>' :: ' ' :: l
-def contextLength : Nat := 3
+/-! the literals that shape the report are read from `mpilot/cli/mpilot.py` on every run (`Generated/CliConsts.lean`) -/
+def header : List Char := Generated.cliHeader.toList
+def indent (l : List Char) : List Char := List.replicate Generated.cliIndentWidth ' ' ++ l
+def marker (l : List Char) : List Char := Generated.cliMarker.toList ++ l
+def contextLength : Nat := Generated.cliContextLength
 
 def missingFile (path : List Char) : List Char :=
   "Problem: The specified command file does not exist: ".toList ++ path ++ '\n' ::
